@@ -690,7 +690,9 @@ class EditFaults:
             "raw writes: crash / ENOSPC after k bytes and short writes for "
             "k in {0,1,n/2,n-1} (thorough: additionally every k of every raw "
             "write of up to 4096 bytes, at bound 1)",
-            "only the metafile path is judged; temporary siblings are not",
+            "only the metafile path is judged; temporary siblings are not; "
+            "one base has a symbolic link as the metafile path (judged on the "
+            "bytes reachable through the path)",
             "seam completeness: an audit hook must find every mutating OS "
             "event of a fault-free run accounted for by the shim (else exit 2)",
         ]
@@ -704,7 +706,9 @@ class EditFaults:
     def groups(self, tier, seed):
         gs = []
         for ver in ("v1", "v2", "hy"):
-            for opts in ("bare", "full"):
+            for opts in ("bare", "full", "bare-symlink"):
+                if opts == "bare-symlink" and ver != "hy":
+                    continue
                 for name, _ in C17_REQUESTS:
                     for route in ("lib",) + (("cli",) if not
                                              name.startswith("unenc") else ()):
@@ -719,11 +723,19 @@ class EditFaults:
                                        "tier": tier, "ks": "all", "bound": 1})
         return gs
 
-    def one_run(self, run, raw0, req_name, route, write_ks):
+    def one_run(self, run, raw0, req_name, route, write_ks, symlink=False):
         work = world.fresh_dir()
         path = os.path.join(work, "m.torrent")
-        with open(path, "wb") as f:
-            f.write(raw0)
+        if symlink:
+            # the metafile path is a symbolic link to the real file
+            os.mkdir(os.path.join(work, "store"))
+            real = os.path.join(work, "store", "real.torrent")
+            with open(real, "wb") as f:
+                f.write(raw0)
+            os.symlink(os.path.join("store", "real.torrent"), path)
+        else:
+            with open(path, "wb") as f:
+                f.write(raw0)
         args = {f: None for f in FIELDS}
         args.update(dict(C17_REQUESTS)[req_name])
         args = {k: (list(v) if isinstance(v, list) else v)
@@ -759,7 +771,9 @@ class EditFaults:
         res = core.Result()
         seed = g["seed"]
         work = world.fresh_dir()
-        raw0 = make_base(tuple(g["base"]), seed, work)
+        symlink = g["base"][1].endswith("-symlink")
+        raw0 = make_base((g["base"][0], g["base"][1].split("-")[0]), seed,
+                         work)
         bound = g.get("bound", 1 if g["tier"] == "quick" else 2)
         write_ks = g.get("ks", "sample")
         ex = e2.Explorer(bound, max_runs=200000)
@@ -767,13 +781,13 @@ class EditFaults:
         unenc = g["req"].startswith("unenc")
         first = True
         for run, r in ex.explore(lambda run: self.one_run(
-                run, raw0, g["req"], g["route"], write_ks)):
+                run, raw0, g["req"], g["route"], write_ks, symlink)):
             res.transitions += 1
             res.evals += 1
             res.states += 1
             vec = e2.vector(run)
             case = {"base": g["base"], "req": g["req"], "route": g["route"],
-                    "seed": seed,
+                    "seed": seed, "ks": write_ks,
                     "vector": [[c, list(p)] for c, p in
                                zip(run.choices, run.points)]}
             if first:
@@ -834,12 +848,15 @@ class EditFaults:
     def replay(self, case):
         prefix = [(c, (p[0], p[1])) for c, p in case["vector"]]
         work = world.fresh_dir()
-        raw0 = make_base(tuple(case["base"]), case["seed"], work)
+        symlink = case["base"][1].endswith("-symlink")
+        raw0 = make_base((case["base"][0], case["base"][1].split("-")[0]),
+                         case["seed"], work)
+        ks = case.get("ks", "sample")
         run0 = e2.Run([])
-        r0 = self.one_run(run0, raw0, case["req"], case["route"], "sample")
+        r0 = self.one_run(run0, raw0, case["req"], case["route"], ks, symlink)
         new = r0["final"][1] if r0["final"][0] == "file" else None
         run = e2.Run(prefix)
-        r = self.one_run(run, raw0, case["req"], case["route"], "sample")
+        r = self.one_run(run, raw0, case["req"], case["route"], ks, symlink)
         kind, data = r["final"]
         if kind != "file":
             return [{"sig": "C17|metafile-" + kind, "detail": r["fault"]}]
